@@ -203,6 +203,37 @@ def correspondence(rep, ctx):
             if mo[0] != "ok" or abs(qf - mo[1]) > Fraction(1, 10**14) * abs(mo[1]):
                 fail(desc, f"stores {float(qf)!r} atoms (x ln2 for activity); the amount read to 15 digits gives {mo[1] and float(mo[1])!r}")
     rep.corr["exhaustive"] = thorough
+    # ---- "mass = moles x THE DATASET'S atomic mass": two revisions of a synthetic dataset under ONE name, loaded from two
+    #      directories in this process, with different atomic masses and half-lives — each class must use the data of the
+    #      dataset object it was given
+    import copy
+    import synthetic
+    for k_ in range(4 if thorough else 1):
+        sch1 = synthetic.make_scheme(view, r)
+        sch2 = copy.deepcopy(sch1)
+        sch2["masses"] = [float(f"{m * (1 + 1e-3 * (j_ + 1)):.9f}") for j_, m in enumerate(sch1["masses"])]
+        ds1, _, p1 = synthetic.build(rd, view, r, f"c05_{ctx.seed}_{k_}_rev1", sch=sch1, name="verif_same_name")
+        ds2, _, p2 = synthetic.build(rd, view, r, f"c05_{ctx.seed}_{k_}_rev2", sch=sch2, name="verif_same_name")
+        try:
+            for ds_, sch_ in ((ds2, sch2), (ds1, sch1)):
+                for j_, nm in enumerate(sch_["names"][:6]):
+                    mass = Fraction(repr(sch_["masses"][j_]))
+                    for C in (rd.Inventory, rd.InventoryHP):
+                        desc = f"{C.__name__}({{{nm!r}: 2.5}}, 'mol', dataset revision with atomic mass {float(mass)!r})"
+                        rep.case(("same-name-datasets", k_, nm, C.__name__))
+                        rep.dist("dataset-revisions-under-one-name")
+                        try:
+                            inv = C({nm: 2.5}, "mol", True, ds_)
+                            got_g = F(inv.masses("g")[nm])
+                            got_mol = F(C({nm: 5.0}, "g", True, ds_).moles("mol")[nm])
+                            if abs(got_g - Fraction(5, 2) * mass) > Fraction(5, 2) * mass / 10**13 or abs(got_mol - 5 / mass) > (5 / mass) / 10**13:
+                                fail(desc, f"masses('g') = {float(got_g)!r} (expected {float(Fraction(5, 2) * mass)!r}), 5 g -> "
+                                           f"{float(got_mol)!r} mol (expected {float(5 / mass)!r})")
+                        except Exception as e:  # noqa: BLE001
+                            fail(desc, f"raised {type(e).__name__}: {e}")
+        finally:
+            synthetic.cleanup(p1)
+            synthetic.cleanup(p2)
     rep.notes["mismatches"] = bad
 
 
